@@ -241,7 +241,7 @@ class BaseInput(BasePort):
         while True:
             try:
                 yield self.receive()
-            except OSError:
+            except (OSError, ValueError):
                 if self.closed:
                     # The port closed before or inside receive().
                     # (This makes the assumption that this is the reason,
@@ -371,9 +371,11 @@ class MultiPort(BaseIOPort):
                 port.send(message)
 
     def _receive(self, block=True):
+        # Only poll the ports once. BaseInput.receive() takes care of
+        # blocking: a blocking multi_receive() never ends.
         self._messages.extend(multi_receive(self.ports,
                                             yield_ports=self.yield_ports,
-                                            block=block))
+                                            block=False))
 
 
 def multi_receive(ports, yield_ports=False, block=True):
